@@ -34,6 +34,8 @@ extern size_t ledger_big_request; /* largest single request seen */
 void ledger_reset(void);         /* forget everything (does not free) */
 int ledger_live(void);
 void ledger_forget(void *p);     /* stop tracking p (ownership moved to the harness) */
+int ledger_snapshot(void);       /* fills ledger_blocks[] (allocation order), returns count */
+size_t ledger_size_of(void *p);  /* (size_t)-1 if not tracked */
 
 /* ---- canon.c: canonical image of the tracked heap */
 size_t canon_image(unsigned char *out, size_t cap);
